@@ -265,8 +265,10 @@ def parse_ig(filepath):
         nnodes = len(seq_graph.nodes)
         seq_graph.add_edge(0, nnodes-1)
         seq_graph.edges[(0, nnodes-1)]["linktype"] = "circle"
-        seq_graph.nodes[0]["resname"] = seq_graph.nodes[0]["resname"][:-1]
-        seq_graph.nodes[nnodes-1]["resname"] = seq_graph.nodes[nnodes-1]["resname"][:-1]
+        # only nucleic acids carry the 5' and 3' suffix on the terminal residues
+        if DNA or RNA:
+            seq_graph.nodes[0]["resname"] = seq_graph.nodes[0]["resname"][:-1]
+            seq_graph.nodes[nnodes-1]["resname"] = seq_graph.nodes[nnodes-1]["resname"][:-1]
 
     if idx < len(lines) - 1:
         LOGGER.warning("There may be more than one sequence in the file. We will only use the first one.")
